@@ -1003,6 +1003,10 @@ func readTcbInfoTcbStatus(tcbInfo pcs.TcbInfo, tdQuoteBody *pb.TDQuoteBody, pckC
 			return pcs.TcbLevel{}, err
 		}
 		logger.V(2).Info("Tdx Module TCB Status found: ", matchingTdxModuleTcbLevel.TcbStatus)
+		// Both the platform TCB level and the TDX module TCB level have to be up to date.
+		if matchingTcbLevel.TcbStatus != pcs.TcbComponentStatusUpToDate {
+			return matchingTcbLevel, nil
+		}
 		return *matchingTdxModuleTcbLevel, nil
 	}
 
